@@ -7,6 +7,7 @@ import (
 	"go/ast"
 	"go/token"
 	"go/types"
+	"sort"
 
 	"golang.org/x/tools/go/ssa"
 )
@@ -58,12 +59,105 @@ func candidateInvariants(ctx *Ctx, fn *ssa.Function) []*Clause {
 		}
 		return false
 	}
+	// variables (parameters and locals) whose type carries a type invariant: candidate "inv(x)" at every loop
+	type tv struct{ name, pred string }
+	var tvars []tv
+	seenTV := map[string]bool{}
+	if info := ctx.pkgs[fn.Pkg.Pkg.Path()].TypesInfo; info != nil && len(ctx.typeInv) > 0 {
+		for id, obj := range info.Defs {
+			v, ok := obj.(*types.Var)
+			if !ok || v.IsField() || id.Pos() < syn.Pos() || id.Pos() > syn.End() || id.Name == "_" {
+				continue
+			}
+			if ti, ok := ctx.typeInv[typeKeyFull(v.Type())]; ok && !seenTV[id.Name] {
+				seenTV[id.Name] = true
+				tvars = append(tvars, tv{id.Name, ti[1]})
+			}
+		}
+		sort.Slice(tvars, func(i, j int) bool { return tvars[i].name < tvars[j].name })
+	}
+	info := ctx.pkgs[fn.Pkg.Pkg.Path()].TypesInfo
+	// slice-like variables in scope (parameters and locals) for cursor templates
+	var sliceVars []string
+	seenSV := map[string]bool{}
+	if info != nil {
+		for id, obj := range info.Defs {
+			v, ok := obj.(*types.Var)
+			if !ok || v.IsField() || id.Pos() < syn.Pos() || id.Pos() > syn.End() || id.Name == "_" || seenSV[id.Name] {
+				continue
+			}
+			if isSliceLike(v.Type()) {
+				seenSV[id.Name] = true
+				sliceVars = append(sliceVars, id.Name)
+			}
+		}
+		sort.Strings(sliceVars)
+	}
+	addTV := func(loop int, pos token.Pos) {
+		for _, v := range tvars {
+			add(loop, fmt.Sprintf("%s(%s)", v.pred, v.name), pos)
+		}
+	}
+	// cursor templates: integer variables assigned in the loop body stay within [0, len(s)]
+	addCursors := func(loop int, body *ast.BlockStmt, pos token.Pos) {
+		if info == nil || body == nil {
+			return
+		}
+		assigned := map[string]types.Type{}
+		ast.Inspect(body, func(n ast.Node) bool {
+			switch s := n.(type) {
+			case *ast.FuncLit:
+				return false
+			case *ast.AssignStmt:
+				for _, l := range s.Lhs {
+					if id, ok := l.(*ast.Ident); ok && id.Name != "_" {
+						if obj := info.ObjectOf(id); obj != nil && isInt(obj.Type()) {
+							assigned[id.Name] = obj.Type()
+						}
+					}
+				}
+			case *ast.IncDecStmt:
+				if id, ok := s.X.(*ast.Ident); ok {
+					if obj := info.ObjectOf(id); obj != nil && isInt(obj.Type()) {
+						assigned[id.Name] = obj.Type()
+					}
+				}
+			}
+			return true
+		})
+		var names []string
+		for n := range assigned {
+			names = append(names, n)
+		}
+		sort.Strings(names)
+		cnt := 0
+		for _, n := range names {
+			if isSigned(assigned[n]) {
+				add(loop, fmt.Sprintf("%s >= 0", n), pos)
+			}
+			for _, sv := range sliceVars {
+				if cnt >= 24 {
+					break
+				}
+				cnt++
+				if widthOf(assigned[n]) == 64 && isSigned(assigned[n]) {
+					add(loop, fmt.Sprintf("%s <= len(%s)", n, sv), pos)
+				} else if widthOf(assigned[n]) == 64 {
+					add(loop, fmt.Sprintf("%s <= uint(len(%s))", n, sv), pos)
+				} else if widthOf(assigned[n]) == 32 && !isSigned(assigned[n]) {
+					add(loop, fmt.Sprintf("uint64(%s) <= uint64(len(%s))", n, sv), pos)
+				}
+			}
+		}
+	}
 	ast.Inspect(body, func(n ast.Node) bool {
 		switch s := n.(type) {
 		case *ast.FuncLit:
 			return false
 		case *ast.ForStmt:
 			ord++
+			addTV(ord, s.Pos())
+			addCursors(ord, s.Body, s.Pos())
 			var iv string
 			if as, ok := s.Init.(*ast.AssignStmt); ok && len(as.Lhs) == 1 && len(as.Rhs) == 1 {
 				if id, ok := as.Lhs[0].(*ast.Ident); ok {
@@ -90,6 +184,8 @@ func candidateInvariants(ctx *Ctx, fn *ssa.Function) []*Clause {
 			}
 		case *ast.RangeStmt:
 			ord++
+			addTV(ord, s.Pos())
+			addCursors(ord, s.Body, s.Pos())
 			add(ord, fmt.Sprintf("0 <= idx(%d)", ord), s.Pos())
 			if simple(s.X) {
 				if tv, ok := ctx.pkgs[fn.Pkg.Pkg.Path()].TypesInfo.Types[s.X]; ok && isSliceLike(tv.Type) {
